@@ -98,7 +98,7 @@ class Protocol(Component):
         # FIXME: the encoding of values is hardcoded to UTF-8.
         # at least protect against DoS attempts causing UnicodeDecodeError
 
-        if '"value":' in packet:  # FIXME: this can also be part of a call-value
+        if '"value":' in packet:  # can also be part of a call, see below
             self.__process_packet_value(packet)
 
         else:
@@ -123,7 +123,10 @@ class Protocol(Component):
     def __process_packet_value(self, packet):
         try:
             value, id, error, meta = load_value(packet)
-        except (TypeError, ValueError, LookupError):
+        except LookupError:
+            # not a result: '"value":' was an argument or attribute of a call
+            return self.__process_packet_call(packet)
+        except (TypeError, ValueError):
             return
 
         ev = self.__events.get(id)
